@@ -158,9 +158,12 @@ OpaqueSafe == {"to_string", "type", "not_null", "to_array", "to_number", "merge"
 ByExpr == {"map", "sort_by", "max_by", "min_by"}
 
 (* result of a pure built-in on arguments that satisfy its signature *)
+HasBig(xs) == \E i \in 1..Len(xs) : xs[i][1] = "num" /\ xs[i][3] = 0
 PureResult(name, args) ==
   LET a == args[1] IN
-  CASE name = "abs" -> OkS(Num(AbsI(a[2]), a[3]))
+  CASE name \in {"abs", "ceil", "floor"} /\ IsBig(a) -> OkS(a)
+    [] name \in {"avg", "sum"} /\ HasBig(a[2]) -> {UNSPEC}
+    [] name = "abs" -> OkS(Num(AbsI(a[2]), a[3]))
     [] name = "avg" -> IF a[2] = <<>> THEN (IF "AvgEmptyNaN" \in Dev THEN OkS(<<"nonfinite">>) ELSE OkS(Null))
                        ELSE OkS(LET s == SumR(a[2]) IN Num(s[2], s[3] * Len(a[2])))
     [] name = "ceil" -> OkS(IntV(-((-a[2]) \div a[3])))
